@@ -1,6 +1,76 @@
 package main
 
-// runPw: mode pw (stub, filled in by its check).
-func runPw(script, out string) {
-	fatal("mode pw not implemented")
+import (
+	"bufio"
+	"encoding/hex"
+	"fmt"
+	"os"
+	"strings"
+
+	"github.com/rivo/sessions"
+)
+
+// runPw: one query per line, `<hex password> [<hex name>]...`. Output per query:
+// `<result code> <hex password> <hex ToLower(password)> [<hex name> <hex ToLower(name)>]...`
+// (strings.ToLower is the standard library's; its results are handed to the model).
+// The first output line gives the lengths of the two decompressed word lists.
+func runPw(script, outPath string) {
+	f, err := os.Create(outPath)
+	if err != nil {
+		fmt.Fprintln(os.Stderr, err)
+		os.Exit(3)
+	}
+	out = bufio.NewWriterSize(f, 1<<20)
+	defer out.Flush()
+	common, dict := sessions.VerifWordLists()
+	emit("lists %d %d", len(common), len(dict))
+	in, err := os.Open(script)
+	if err != nil {
+		fatal("%v", err)
+	}
+	sc := bufio.NewScanner(in)
+	sc.Buffer(make([]byte, 1<<20), 1<<24)
+	for sc.Scan() {
+		line := sc.Text()
+		if line == "" {
+			continue
+		}
+		tok := strings.Split(line, " ")
+		dec := func(s string) string {
+			if s == "-" {
+				return ""
+			}
+			b, err := hex.DecodeString(s)
+			if err != nil {
+				fatal("bad hex %q", s)
+			}
+			return string(b)
+		}
+		enc := func(s string) string {
+			if s == "" {
+				return "-"
+			}
+			return hex.EncodeToString([]byte(s))
+		}
+		pw := dec(tok[0])
+		names := make([]string, 0, len(tok)-1)
+		for _, t := range tok[1:] {
+			names = append(names, dec(t))
+		}
+		code := -1
+		func() {
+			defer func() {
+				if r := recover(); r != nil {
+					code = -2
+				}
+			}()
+			code = sessions.ReasonablePassword(pw, names)
+		}()
+		var sb strings.Builder
+		fmt.Fprintf(&sb, "%d %s %s", code, enc(pw), enc(strings.ToLower(pw)))
+		for _, n := range names {
+			fmt.Fprintf(&sb, " %s %s", enc(n), enc(strings.ToLower(n)))
+		}
+		emit("%s", sb.String())
+	}
 }
